@@ -2,16 +2,19 @@
    Non-control operations use the same [exec_op] as the AVM (so compiler-correctness statements are
    parametric in the op semantics); control constructs have their source-level meaning:
    operands left to right exactly once, only the selected branch/iterations run, Break/Continue
-   leave the loop body, Return/Exit leave the routine/program. *)
+   leave the loop body, Return/Exit leave the routine/program.
+   The evaluator threads the operand stack explicitly and control outcomes carry the stack at the
+   point of the transfer: for programs that keep statement discipline (Proofs/Discipline.v) that stack
+   is the one the enclosing loop / routine started with. *)
 From Coq Require Import List Arith NArith Ascii String Bool.
 From PV Require Import Base.Bytes AVM.Syntax AVM.Ops AVM.Machine AVM.Parse Src.Expr Comp.WideRatio.
 Import ListNotations.
 
 Inductive dout : Type :=
 | DNorm (stk : list value) (st : mstate)      (* evaluation finished; result (if any) pushed on stk *)
-| DBrk (st : mstate)
-| DCont (st : mstate)
-| DRet (v : option value) (st : mstate)       (* Return inside a subroutine *)
+| DBrk (stk : list value) (st : mstate)
+| DCont (stk : list value) (st : mstate)
+| DRet (stk : list value) (st : mstate)       (* retsub: the whole operand stack goes back to the caller *)
 | DExit (v : value) (st : mstate)             (* return op of the main routine / ExitProgram *)
 | DFail
 | DFuel
@@ -53,6 +56,7 @@ Fixpoint args_to_imms (env : denv) (o : opc) (l : list arg) : option (list imm) 
   | a :: t => match arg_to_imm env o a, args_to_imms env o t with Some x, Some r => Some (x :: r) | _, _ => None end
   end.
 
+(* one non-control operation; shared by the source semantics and the graph/linear semantics *)
 Definition do_op (env : denv) (o : opc) (imms : list arg) (stk : list value) (st : mstate) : dout :=
   match o, imms, stk with
   (* a variable is a cell of its own: no range check on the (model-assigned) number *)
@@ -60,20 +64,134 @@ Definition do_op (env : denv) (o : opc) (imms : list arg) (stk : list value) (st
   | O_store, [ASlot u], v :: r => DNorm r (set_scratch st (e_asg env u) v)
   | O_store, [ASlot u], [] => DFail
   | _, _, _ =>
-  match args_to_imms env o imms with
-  | None => DUnsup o
-  | Some im =>
-      match exec_op (e_ctx env) o im stk st with
-      | OOk s st' => DNorm s st'
-      | OFail => DFail
-      | ONot => match o with O_err => DFail | _ => DUnsup o end
-      | OUnsup => DUnsup o
+      match args_to_imms env o imms with
+      | None => DUnsup o
+      | Some im =>
+          match exec_op (e_ctx env) o im stk st with
+          | OOk s st' => DNorm s st'
+          | OFail => DFail
+          | ONot => match o with O_err => DFail | _ => DUnsup o end
+          | OUnsup => DUnsup o
+          end
       end
-  end
   end.
 
 Definition truthy (v : value) : option bool :=
   match v with VI n => Some (negb (N.eqb n 0)) | VB _ => None end.
+
+(* pop a condition value and select *)
+Definition branch (r : dout) (yes no : list value -> mstate -> dout) : dout :=
+  match r with
+  | DNorm (v :: s1) st1 =>
+      match truthy v with
+      | Some true => yes s1 st1
+      | Some false => no s1 st1
+      | None => DFail
+      end
+  | DNorm [] _ => DFail
+  | other => other
+  end.
+
+(* a Break evaluated inside a loop header leaves the loop *)
+Definition loop_head (r : dout) : dout :=
+  match r with DBrk s st => DNorm s st | other => other end.
+
+Definition as_uints (l : list value) : option (list N) :=
+  fold_right (fun v acc => match v, acc with VI n, Some r => Some (n :: r) | _, _ => None end) (Some []) l.
+
+Section Helpers.
+  Variable env : denv.
+  Variable den : expr -> list value -> mstate -> dout.
+
+  (* a list left to right, threading stack and state *)
+  Fixpoint den_list (l : list expr) (stk : list value) (st : mstate) : dout :=
+    match l with
+    | [] => DNorm stk st
+    | x :: t => match den x stk st with DNorm s1 st1 => den_list t s1 st1 | other => other end
+    end.
+
+  Fixpoint den_nary_rest (o : opc) (l : list expr) (stk : list value) (st : mstate) : dout :=
+    match l with
+    | [] => DNorm stk st
+    | x :: t =>
+        match den x stk st with
+        | DNorm s2 st2 =>
+            match do_op env o [] s2 st2 with
+            | DNorm s3 st3 => den_nary_rest o t s3 st3
+            | other => other
+            end
+        | other => other
+        end
+    end.
+
+  Fixpoint den_cond (l : list (expr * expr)) (stk : list value) (st : mstate) : dout :=
+    match l with
+    | [] => DFail                           (* no arm selected: err *)
+    | (c, v) :: t => branch (den c stk st) (fun s1 st1 => den v s1 st1) (fun s1 st1 => den_cond t s1 st1)
+    end.
+
+  Fixpoint den_asserts (l : list expr) (stk : list value) (st : mstate) : dout :=
+    match l with
+    | [] => DNorm stk st
+    | c :: t => branch (den c stk st) (fun s1 st1 => den_asserts t s1 st1) (fun _ _ => DFail)
+    end.
+
+  Fixpoint den_stores (l : list N) (stk : list value) (st : mstate) : dout :=
+    match l with
+    | [] => DNorm stk st
+    | s :: t =>
+        match do_op env O_store [ASlot s] stk st with
+        | DNorm s' st' => den_stores t s' st'
+        | other => other
+        end
+    end.
+
+  (* While(c).Do(b): n bounds the number of iterations *)
+  Fixpoint den_while (n : nat) (c body : expr) (stk : list value) (st : mstate) : dout :=
+    match n with
+    | O => DFuel
+    | S k =>
+        match den c stk st with
+        | DBrk s st' => DNorm s st'
+        | r =>
+            branch r
+                   (fun s1 st1 =>
+                      match den body s1 st1 with
+                      | DNorm s2 st2 => den_while k c body s2 st2
+                      | DCont s2 st2 => den_while k c body s2 st2
+                      | DBrk s2 st2 => DNorm s2 st2
+                      | other => other
+                      end)
+                   (fun s1 st1 => DNorm s1 st1)
+        end
+    end.
+
+  (* the loop of For(i, c, s).Do(b) after i: Continue goes to s *)
+  Fixpoint den_for (n : nat) (c stp body : expr) (stk : list value) (st : mstate) : dout :=
+    match n with
+    | O => DFuel
+    | S k =>
+        match den c stk st with
+        | DBrk s st' => DNorm s st'
+        | r =>
+            branch r
+                   (fun s1 st1 =>
+                      let after (s2 : list value) (st2 : mstate) :=
+                        match den stp s2 st2 with
+                        | DNorm s3 st3 => den_for k c stp body s3 st3
+                        | DBrk s3 st3 => DNorm s3 st3
+                        | other => other
+                        end in
+                      match den body s1 st1 with
+                      | DNorm s2 st2 => after s2 st2
+                      | DCont s2 st2 => after s2 st2
+                      | DBrk s2 st2 => DNorm s2 st2
+                      | other => other
+                      end)
+                   (fun s1 st1 => DNorm s1 st1)
+        end
+    end.
+End Helpers.
 
 Section Denote.
   Variable env : denv.
@@ -83,16 +201,9 @@ Section Denote.
     | O => DFuel
     | S f =>
         let den := denote f in
-        (* evaluate a list left to right, threading stack and state *)
-        let den_list :=
-          (fix go (l : list expr) (stk : list value) (st : mstate) : dout :=
-             match l with
-             | [] => DNorm stk st
-             | x :: t => match den x stk st with DNorm s1 st1 => go t s1 st1 | other => other end
-             end) in
         match e with
         | EOp o imms _ args =>
-            match den_list args stk st with
+            match den_list den args stk st with
             | DNorm s1 st1 => do_op env o imms s1 st1
             | other => other
             end
@@ -101,129 +212,34 @@ Section Denote.
             | [] => DNorm stk st
             | a1 :: rest =>
                 match den a1 stk st with
-                | DNorm s1 st1 =>
-                    (fix go (l : list expr) (stk : list value) (st : mstate) : dout :=
-                       match l with
-                       | [] => DNorm stk st
-                       | x :: t =>
-                           match den x stk st with
-                           | DNorm s2 st2 =>
-                               match do_op env o [] s2 st2 with
-                               | DNorm s3 st3 => go t s3 st3
-                               | other => other
-                               end
-                           | other => other
-                           end
-                       end) rest s1 st1
+                | DNorm s1 st1 => den_nary_rest env den o rest s1 st1
                 | other => other
                 end
             end
-        | ESeq es => den_list es stk st
+        | ESeq es => den_list den es stk st
         | EIf c th el =>
-            match den c stk st with
-            | DNorm (v :: s1) st1 =>
-                match truthy v with
-                | Some true => den th s1 st1
-                | Some false => match el with Some x => den x s1 st1 | None => DNorm s1 st1 end
-                | None => DFail
-                end
-            | DNorm [] _ => DFail
-            | other => other
-            end
-        | ECond arms =>
-            (fix go (l : list (expr * expr)) (st : mstate) : dout :=
-               match l with
-               | [] => DFail                           (* no arm selected: err *)
-               | (c, v) :: t =>
-                   match den c stk st with
-                   | DNorm (x :: s1) st1 =>
-                       match truthy x with
-                       | Some true => den v s1 st1
-                       | Some false => go t st1
-                       | None => DFail
-                       end
-                   | DNorm [] _ => DFail
-                   | other => other
-                   end
-               end) arms st
-        | EWhile c body =>
-            match den c stk st with
-            | DNorm (x :: s1) st1 =>
-                match truthy x with
-                | Some false => DNorm s1 st1
-                | Some true =>
-                    match den body s1 st1 with
-                    | DNorm s2 st2 => den (EWhile c body) s2 st2
-                    | DCont st2 => den (EWhile c body) stk st2
-                    | DBrk st2 => DNorm stk st2
-                    | other => other
-                    end
-                | None => DFail
-                end
-            | DNorm [] _ => DFail
-            | other => other
-            end
+            branch (den c stk st)
+                   (fun s1 st1 => den th s1 st1)
+                   (fun s1 st1 => match el with Some x => den x s1 st1 | None => DNorm s1 st1 end)
+        | ECond arms => den_cond den arms stk st
+        | EWhile c body => den_while den f c body stk st
         | EFor ini c stp body =>
-            (* For(i, c, s).Do(b) = i; while c: b; s  (Continue jumps to s) *)
-            let loop :=
-              (fix go (n : nat) (stk : list value) (st : mstate) : dout :=
-                 match n with
-                 | O => DFuel
-                 | S k =>
-                     match den c stk st with
-                     | DNorm (x :: s1) st1 =>
-                         match truthy x with
-                         | Some false => DNorm s1 st1
-                         | Some true =>
-                             let after_body (s2 : list value) (st2 : mstate) :=
-                               match den stp s2 st2 with
-                               | DNorm s3 st3 => go k s3 st3
-                               | DBrk st3 => DNorm stk st3
-                               | other => other
-                               end in
-                             match den body s1 st1 with
-                             | DNorm s2 st2 => after_body s2 st2
-                             | DCont st2 => after_body stk st2
-                             | DBrk st2 => DNorm stk st2
-                             | other => other
-                             end
-                         | None => DFail
-                         end
-                     | DNorm [] _ => DFail
-                     | DBrk st1 => DNorm stk st1
-                     | other => other
-                     end
-                 end) in
             match den ini stk st with
-            | DNorm s0 st0 => loop f s0 st0
-            | DBrk st0 => DNorm stk st0
+            | DNorm s0 st0 => den_for den f c stp body s0 st0
+            | DBrk s0 st0 => DNorm s0 st0
             | other => other
             end
-        | EBreak => DBrk st
-        | EContinue => DCont st
-        | EAssert conds _ =>
-            (fix go (l : list expr) (stk : list value) (st : mstate) : dout :=
-               match l with
-               | [] => DNorm stk st
-               | c :: t =>
-                   match den c stk st with
-                   | DNorm (x :: s1) st1 =>
-                       match truthy x with
-                       | Some true => go t s1 st1
-                       | Some false => DFail
-                       | None => DFail
-                       end
-                   | DNorm [] _ => DFail
-                   | other => other
-                   end
-               end) conds stk st
+        | EBreak => DBrk stk st
+        | EContinue => DCont stk st
+        | EAssert conds _ => den_asserts den conds stk st
         | EReturn v =>
             match v with
-            | None => if e_in_sub env then DRet None st else DFail
+            | None => if e_in_sub env then DRet stk st else DFail
             | Some x =>
                 match den x stk st with
-                | DNorm (r :: _) st1 => if e_in_sub env then DRet (Some r) st1 else DExit r st1
-                | DNorm [] _ => DFail
+                | DNorm s1 st1 =>
+                    if e_in_sub env then DRet s1 st1
+                    else match s1 with r :: _ => DExit r st1 | [] => DFail end
                 | other => other
                 end
             end
@@ -234,44 +250,27 @@ Section Denote.
             | other => other
             end
         | EMulti o imms args outs =>
-            match den_list args stk st with
+            match den_list den args stk st with
             | DNorm s1 st1 =>
                 match do_op env o imms s1 st1 with
-                | DNorm s2 st2 =>
-                    (* results are on the stack, last output on top: store them into their slots *)
-                    (fix go (l : list N) (stk : list value) (st : mstate) : dout :=
-                       match l with
-                       | [] => DNorm stk st
-                       | s :: t =>
-                           match do_op env O_store [ASlot s] stk st with
-                           | DNorm s' st' => go t s' st'
-                           | other => other
-                           end
-                       end) (rev outs) s2 st2
+                | DNorm s2 st2 => den_stores env (rev outs) s2 st2
                 | other => other
                 end
             | other => other
             end
-        | ECall _ _ _ => DUnsup O_callsub        (* subroutine calls: Src/DenoteCall.v *)
+        | ECall _ _ _ => DUnsup O_callsub        (* subroutine calls: handled by the call-aware evaluator *)
         | EWide ns ds =>
-            (* exact quotient of the two products, or failure (property C16 is the lowering's proof) *)
-            match den_list ns stk st with
+            (* exact quotient of the two products, or failure *)
+            match den_list den ns stk st with
             | DNorm s1 st1 =>
-                match den_list ds s1 st1 with
+                match den_list den ds s1 st1 with
                 | DNorm s2 st2 =>
                     let nn := List.length ns in
                     let nd := List.length ds in
-                    let dvals := rev (firstn nd s2) in
-                    let nvals := rev (firstn nn (skipn nd s2)) in
-                    let rest := skipn (nn + nd) s2 in
-                    let as_n := fun v => match v with VI n => Some n | VB _ => None end in
-                    match (fix all (l : list value) : option (list N) :=
-                             match l with [] => Some [] | v :: t => match as_n v, all t with Some n, Some r => Some (n :: r) | _, _ => None end end) nvals,
-                          (fix all (l : list value) : option (list N) :=
-                             match l with [] => Some [] | v :: t => match as_n v, all t with Some n, Some r => Some (n :: r) | _, _ => None end end) dvals with
+                    match as_uints (rev (firstn nn (skipn nd s2))), as_uints (rev (firstn nd s2)) with
                     | Some nsv, Some dsv =>
                         match wide_ratio_spec nsv dsv with
-                        | Some q => DNorm (VI q :: rest) st2
+                        | Some q => DNorm (VI q :: skipn (nn + nd) s2) st2
                         | None => DFail
                         end
                     | _, _ => DFail
@@ -288,18 +287,20 @@ End Denote.
 Inductive dverdict : Type :=
 | DVApprove | DVReject | DVFail | DVFuel | DVUnsup (o : opc).
 
-Definition run_main (env : denv) (fuel : nat) (main : expr) (st : mstate) : dverdict * mstate :=
+Definition with_implicit_return (main : expr) : expr :=
   (* compileSubroutine's implicit Return *)
-  let ast := if has_return main then main
-             else match type_of main with
-                  | TNone => ESeq [main; EReturn None]
-                  | _ => EReturn (Some main)
-                  end in
-  match denote env fuel ast [] st with
+  if has_return main then main
+  else match type_of main with
+       | TNone => ESeq [main; EReturn None]
+       | _ => EReturn (Some main)
+       end.
+
+Definition run_main (env : denv) (fuel : nat) (main : expr) (st : mstate) : dverdict * mstate :=
+  match denote env fuel (with_implicit_return main) [] st with
   | DExit (VI n) st' => (if N.eqb n 0 then DVReject else DVApprove, st')
   | DExit (VB _) _ => (DVFail, st)
   | DNorm _ st' => (DVFail, st')          (* fell off the end: cannot happen for routines with a Return *)
-  | DBrk st' | DCont st' | DRet _ st' => (DVFail, st')
+  | DBrk _ st' | DCont _ st' | DRet _ st' => (DVFail, st')
   | DFail => (DVFail, st)
   | DFuel => (DVFuel, st)
   | DUnsup o => (DVUnsup o, st)
